@@ -23,6 +23,13 @@ Accounts == <<
   P0("assets:bank"), P0("assets:cash"), P0("expenses:food"), P0("expenses:food:épicerie"),
   P0("income:salary"), P0("equity:opening balances"), P0("misc:my wallet"), P0("misc:acct 2"),
   P0("assets:кошелёк"), P0("expenses:銀行"), P("misc:fun😀:cash", 1), P0("Expenses:Rent") >>
+(* accounts used only by modules that name them by index (Declarations, WorkspaceFiles, ...); the
+   families of JournalGen range over 1..Len(Accounts) and never see them *)
+AccountsExtra == <<
+  P0("misc"), P0("misc:my wallet:sub"), P0("misc:my wallet2"), P0("INCOME:bonus"), P0("liabilities:card"),
+  P0("revenues:sales"), P0("assetsx:foo"), P0("кошелёк:a"), P("reserve:fund😀", 1), P("reserve:fund😀:x", 1),
+  P0("reserve:fund"), P0("reserve") >>
+AccountsX == Accounts \o AccountsExtra
 
 (* commodities: sym = the symbol the parser should report, txt = how it is written *)
 Commodities == <<
@@ -175,7 +182,7 @@ CommentText(c) == LET r == RenComment(Empty, c) IN SubSeq(r.s, 2, Len(r.s))
    choice record: [ind (number of blanks; 0 = TAB), st, kind, acct, gap, amt <<>>|<<a>>,
                    cost <<>>|<<[total, a]>>, asrt <<>>|<<[strict, a]>>, cmt <<>>|<<c>>] *)
 AbsPosting(p) ==
-    [status |-> p.st, kind |-> p.kind, account |-> Accounts[p.acct].s,
+    [status |-> p.st, kind |-> p.kind, account |-> AccountsX[p.acct].s,
      amount |-> IF Len(p.amt) = 0 THEN <<>> ELSE <<AbsAmount(p.amt[1])>>,
      cost   |-> IF Len(p.cost) = 0 THEN <<>> ELSE <<[total |-> p.cost[1].total, amount |-> AbsAmount(p.cost[1].a)]>>,
      assert |-> IF Len(p.asrt) = 0 THEN <<>> ELSE <<[strict |-> p.asrt[1].strict, amount |-> AbsAmount(p.asrt[1].a)]>>,
@@ -187,7 +194,7 @@ RenPosting(p) ==
         s1 == IF p.st = "" THEN s0 ELSE Sp(Lit(s0, p.st, "status"), 1)
         open  == IF p.kind = "paren" THEN "(" ELSE IF p.kind = "bracket" THEN "[" ELSE ""
         close == IF p.kind = "paren" THEN ")" ELSE IF p.kind = "bracket" THEN "]" ELSE ""
-        s2 == Lit(Put(Lit(s1, open, ""), Accounts[p.acct], "account"), close, "")
+        s2 == Lit(Put(Lit(s1, open, ""), AccountsX[p.acct], "account"), close, "")
         s3 == IF Len(p.amt) = 0 THEN s2 ELSE RenAmount(Sp(s2, p.gap), p.amt[1], "amount")
         s4 == IF Len(p.cost) = 0 THEN s3
               ELSE RenAmount(Sp(Lit(Sp(s3, 1), IF p.cost[1].total THEN "@@" ELSE "@", "operator"), 1), p.cost[1].a, "costamount")
@@ -284,13 +291,14 @@ Formats == <<
   [comm |-> 3, txt |-> "₽1.000,00000000", mark |-> ",", group |-> ".", places |-> 8] >>
 
 IncludePaths == << "b.journal", "sub/c.journal", "*.journal", "sub/<->/*.journal" >>
+IncludePathsX == IncludePaths \o << "a.journal", "s.journal", "x.journal", "main.journal", "sub/d.journal" >>
 
 AbsDir(d) ==
-    CASE d.dir = "account"   -> [type |-> "account", name |-> Accounts[d.acct].s,
+    CASE d.dir = "account"   -> [type |-> "account", name |-> AccountsX[d.acct].s,
                                  comment |-> IF Len(d.cmt) = 0 THEN "" ELSE CommentText(d.cmt[1])]
       [] d.dir = "commodity" -> [type |-> "commodity", symbol |-> Commodities[IF d.form = "plain" THEN d.comm ELSE Formats[d.fmt].comm].sym,
                                  format |-> IF d.form = "plain" THEN "" ELSE Formats[d.fmt].txt]
-      [] d.dir = "include"   -> [type |-> "include", path |-> IncludePaths[d.path]]
+      [] d.dir = "include"   -> [type |-> "include", path |-> IncludePathsX[d.path]]
       [] d.dir = "P"         -> [type |-> "P", date |-> AbsDate(d.date), symbol |-> Commodities[d.comm].sym, amount |-> AbsAmount(d.a)]
       [] d.dir = "Y"         -> [type |-> "Y", year |-> d.y]
       [] d.dir = "D"         -> [type |-> "D", symbol |-> Commodities[Formats[d.fmt].comm].sym, format |-> Formats[d.fmt].txt]
@@ -298,14 +306,14 @@ AbsDir(d) ==
       [] OTHER               -> [type |-> "blank"]
 
 RenDir(d) ==
-    CASE d.dir = "account"   -> << LET s == Put(Sp(Lit(Empty, "account", "directive"), 1), Accounts[d.acct], "account")
+    CASE d.dir = "account"   -> << LET s == Put(Sp(Lit(Empty, "account", "directive"), 1), AccountsX[d.acct], "account")
                                    IN IF Len(d.cmt) = 0 THEN s ELSE RenComment(Sp(s, 2), d.cmt[1]) >>
       [] d.dir = "commodity" ->
             IF d.form = "plain" THEN << Put(Sp(Lit(Empty, "commodity", "directive"), 1), Commodities[d.comm].txt, "commodity") >>
             ELSE IF d.form = "inline" THEN << Lit(Sp(Lit(Empty, "commodity", "directive"), 1), Formats[d.fmt].txt, "format") >>
             ELSE << Put(Sp(Lit(Empty, "commodity", "directive"), 1), Commodities[Formats[d.fmt].comm].txt, "commodity"),
                     Lit(Sp(Lit(Sp(Empty, 2), "format", ""), 1), Formats[d.fmt].txt, "format") >>
-      [] d.dir = "include"   -> << Lit(Sp(Lit(Empty, "include", "directive"), 1), IncludePaths[d.path], "incpath") >>
+      [] d.dir = "include"   -> << Lit(Sp(Lit(Empty, "include", "directive"), 1), IncludePathsX[d.path], "incpath") >>
       [] d.dir = "P"         -> << RenAmount(Sp(Put(Sp(Lit(Sp(Lit(Empty, "P", "directive"), 1), DateStr(d.date), "date"), 1),
                                                     Commodities[d.comm].txt, "commodity"), 1), d.a, "amount") >>
       [] d.dir = "Y"         -> << Lit(Sp(Lit(Empty, d.word, "directive"), 1), ToString(d.y), "year") >>
@@ -337,4 +345,13 @@ Rendered(es) ==
       runes  |-> [i \in 1..Len(lay.lines) |-> Len(lay.lines[i].s) - lay.lines[i].a],
       firsts |-> lay.firsts,
       abs    |-> [i \in 1..Len(es) |-> AbsEntry(es[i])] ]
+
+(* ---- helpers for writing choice records ----------------------------------------------------- *)
+D(y, m, d) == [y |-> y, m |-> m, d |-> d, sep |-> "-", pad |-> TRUE]
+Amt(m, sc, comm) == [neg |-> FALSE, m |-> m, sc |-> sc, n |-> "point", comm |-> comm, side |-> "R", sp |-> TRUE, sgn |-> "before", plus |-> FALSE]
+Post(acct, amt) == [ind |-> 4, st |-> "", kind |-> "real", acct |-> acct, gap |-> 2, amt |-> amt, cost |-> <<>>, asrt |-> <<>>, cmt |-> <<>>]
+NoCmt == <<>>
+Cmt(free, tags) == <<[free |-> free, tags |-> tags]>>
+Tx(date, desc, posts) == [date |-> date, date2 |-> <<>>, st |-> "", code |-> 0, desc |-> desc, hgap |-> 2, cmt |-> NoCmt, posts |-> posts]
+Text(i) == [kind |-> "text", i |-> i, j |-> 1]
 =============================================================================
